@@ -31,6 +31,7 @@ let dispatch (t : string list) : string =
   match t with
   | "expr" :: b :: rest -> Cases.run_expr (backend_of b) (Sexp.parse (String.concat " " rest))
   | "exprfull" :: b :: rest -> Cases.run_expr_full (backend_of b) (Sexp.parse (String.concat " " rest))
+  | "inject" :: b :: rest -> Cases.run_inject (backend_of b) (Sexp.parse (String.concat " " rest))
   | "entry" :: b :: rest -> Cases.run_entry (backend_of b) (Sexp.parse (String.concat " " rest))
   | "stmt" :: b :: rest -> Cases.run_stmt (backend_of b) (Sexp.parse (String.concat " " rest))
   | ["etok"; b; h] ->
